@@ -40,6 +40,8 @@ def source(mm, style='metaclass'):
             if where:
                 out[-1:-1] = [f'class Mix{cid}(object):', f"    def mixed_{cid}(this):", f"        return 'mixed'", '']
                 bases.insert({'before': 0, 'after': len(bases), 'between': min(1, len(bases))}[where], f'Mix{cid}')
+            if style == 'decorator' and getattr(mm, 'decorate_subclasses', False) and not where:
+                out.append('@EMetaclass')       # (a subclass of a static class may carry the decorator as well)
             out.append(f"class C{cid}({', '.join(bases)}):")
         elif style == 'decorator':
             out.append('@EMetaclass')
